@@ -152,6 +152,55 @@ def run_case(case):
     return out
 
 
+def run_key(k):
+    """run key 0 is the default key None of a Msg"""
+    return None if k == 0 else "r%d" % k
+
+
+def run_multi(case):
+    """Several bundlers registered in the RunEngine under different run keys (case["keys"]); case["mops"] is a list of
+    [key, op]: checkpoint / configure go through RE._checkpoint / RE._configure with a Msg carrying that run key
+    (registered or not), every other op goes to the bundler registered under the key."""
+    from bluesky.utils import Msg
+    RE = engine()
+    ledger = []
+    devs = {s["id"]: fd.make_device(s, ledger) for s in case["devs"]}
+    RE.record_interruptions = bool(case["record"])
+    RE._run_bundlers.clear()
+    bundlers = {}
+    for k in case["keys"]:
+        bundlers[k] = RE._run_bundlers[run_key(k)] = type(RE).RunBundler(
+            {}, RE.record_interruptions, RE.emit, RE.emit_sync, RE.log, strict_pre_declare=bool(case["strict"]))
+    RE._msg_cache = __import__("collections").deque()
+    RE._deferred_pause_requested = False
+    canon = Canon()
+    out = []
+
+    async def go():
+        for k, op in case["mops"]:
+            del _collected[:]
+            l0 = len(ledger)
+            res = "ok"
+            try:
+                if op[0] == "checkpoint":
+                    await RE._checkpoint(Msg("checkpoint", run=run_key(k)))
+                elif op[0] == "configure":
+                    await RE._configure(Msg("configure", devs[op[1]], op[2], run=run_key(k)))
+                else:
+                    await _do(RE, bundlers[k], devs, op, Msg)
+            except Exception as e:      # noqa: BLE001
+                res = errkind(e)
+            out.append({"docs": [canon.doc(n, d) for n, d in _collected],
+                        "res": res,
+                        "calls": [canon.call(c) for c in ledger[l0:]]})
+
+    try:
+        _await(RE, go())
+    finally:
+        RE._run_bundlers.clear()
+    return out
+
+
 def _assets(lst):
     return [fd.asset_doc(a) for a in lst]
 
